@@ -102,3 +102,56 @@ def _replay(obligation_tag, fault_label, msg):
     else:
         return "unsupported", dict(reason=f"no native observer for {tag}", observed=observed)
     return ("violation" if bad else "not-reproduced"), observed
+
+
+def cached_objects_order(rep, tier, seed):
+    """C14 (bounded, native): a request served from the cache returns the objects in REQUEST order - the real compile_forms
+    builds a module of three forms of different rank (C compiler run once), then the same request and a permuted request
+    are served from the cache; ranks and kernel tensors per position must be those of the requested forms."""
+    import shutil
+
+    import basix.ufl
+    import numpy as np
+    import ufl
+
+    import ffcx.codegeneration.jit as J
+
+    mesh = ufl.Mesh(basix.ufl.element("Lagrange", "interval", 1, shape=(1,)))
+    V = ufl.FunctionSpace(mesh, basix.ufl.element("Lagrange", "interval", 1))
+    u, v, f = ufl.TrialFunction(V), ufl.TestFunction(V), ufl.Coefficient(V)
+    forms = [u * v * ufl.dx, f * v * ufl.dx, f * f * ufl.dx, 2 * u * v * ufl.dx + u.dx(0) * v.dx(0) * ufl.dx]
+    cache = tempfile.mkdtemp(prefix="jitorder_", dir=os.path.join(os.path.dirname(os.path.dirname(os.path.abspath(__file__))), ".venv"))
+    name = "compile_forms: objects served from the cache come in request order (4 forms, ranks 2,1,0,2)"
+    try:
+        with contextlib.redirect_stdout(io.StringIO()):
+            built, mod, _ = J.compile_forms(forms, cache_dir=cache, timeout=120)
+            again, mod2, code2 = J.compile_forms(forms, cache_dir=cache, timeout=120)
+        want = [2, 1, 0, 2]
+        got0 = [int(o.rank) for o in built]
+        got1 = [int(o.rank) for o in again]
+        served_from_cache = code2 == (None, None)
+
+        def tensor(obj, ffi):
+            itg = obj.form_integrals[0]
+            n = {2: 4, 1: 2, 0: 1}[int(obj.rank)]
+            A = np.zeros(n)
+            w = np.array([0.5, 1.5])
+            c = np.zeros(1)
+            x = np.array([0.0, 0.0, 0.0, 2.0, 0.0, 0.0])
+            itg.tabulate_tensor_float64(ffi.cast("double*", A.ctypes.data), ffi.cast("double*", w.ctypes.data), ffi.cast("double*", c.ctypes.data),
+                                        ffi.cast("double*", x.ctypes.data), ffi.NULL, ffi.NULL, ffi.NULL)
+            return A.tolist()
+
+        t0 = [tensor(o, mod.ffi) for o in built]
+        t1 = [tensor(o, mod2.ffi) for o in again]
+        ok = got0 == want and got1 == want and served_from_cache and all(np.allclose(a, b) for a, b in zip(t0, t1)) and not np.allclose(t0[0], t0[3])
+        if ok:
+            rep.ob(name, "proved", "runtime-contract", "bounded")
+        else:
+            rep.violation("jit:cached-order", name + f" fails: built ranks {got0}, cached ranks {got1}, served from cache: {served_from_cache}",
+                          dict(obligation=name, built_ranks=got0, cached_ranks=got1, built_tensors=t0, cached_tensors=t1,
+                               how_to_replay="checks/jit_replay.py::cached_objects_order"))
+    except Exception as e:  # noqa: BLE001
+        rep.undecide(name, f"{type(e).__name__}: {e}")
+    finally:
+        shutil.rmtree(cache, ignore_errors=True)
